@@ -20,6 +20,8 @@ var selTable = map[string][][]string{
 	"X-A":             {{"1"}, {"2"}, {"1X-B2"}, {"12"}, {""}},
 	"X-B":             {{"2"}, {"1"}, {"X-A1"}, {""}},
 	"X-Tenant":        {{"alpha"}, {"beta"}, {""}},
+	// credentials that differ only after the first token (one spelling per meaning: nothing is claimed equivalent)
+	"Authorization": {{`OAuth oauth_consumer_key="app", oauth_token="alice"`}, {`OAuth oauth_consumer_key="app", oauth_token="bob"`}, {`Digest realm="api", username="alice", nonce="n1"`}, {`Digest realm="api", username="bob", nonce="n1"`}, {"Bearer tok1"}, {"Bearer tok2"}, {""}},
 }
 
 var spellingMeaning = func() map[string]string {
@@ -74,73 +76,75 @@ func (g *gen) dur(secs int64) int64 {
 
 // bias: the knobs a profile turns.
 type bias struct {
-	clients        [2]int
-	ops            [2]int
-	resources      [2]int
-	plans          [2]int
-	backends       []string
-	loggers        []string
-	faultFree      bool
-	readFaultsOnly bool // store faults are transient read errors only (err / timeout on Get)
-	sched          []string
-	stallPct       int
-	lifetimes      []int64 // seconds
-	freshKinds     []int   // weights: max-age, expires, heuristic, none
-	pAgeHdr        int
-	pDateOdd       int
-	pHuge          int
-	pSWR           int
-	pSIE           int
-	pMustReval     int
-	pNoCache       int
-	pNoCacheQ      int
-	pNoStore       int
-	pImmutable     int
-	pVary          int
-	pVaryStar      int
-	pVaryFlip      int // chance that plans of one resource differ in Vary
-	statuses       []int
-	pErrStatus     int
-	pNetFault      int
-	pLatency       int
-	pBigBody       int
-	pFraming       int
-	pHop           int
-	pChange        int
-	pNo304         int
-	pValidator     int
-	pReqCC         int
-	reqCCs         []string
-	pUnsafe        int
-	pOtherMeth     int
-	pRange         int
-	pCond          int
-	pCancel        int
-	pPoison        int
-	pPartial       int
-	pRespell       int
-	pSelHdr        int
-	pRestart       int
-	storeFaults    int // max number of store faults
-	diskFaults     int
-	thinkFocus     int // percent of think times drawn from boundary set
-	pStoreLat      int
-	swrTimeouts    []int64 // ns; -1 = unset
-	maxBody        int
-	pLoc           int
-	pair           bool
-	crashy         bool
-	pCorrupt       int
-	pLongURL       int
-	pMultiLine     int
-	pMultiField    int
-	thinks         []int64
+	clients              [2]int
+	ops                  [2]int
+	resources            [2]int
+	plans                [2]int
+	backends             []string
+	loggers              []string
+	faultFree            bool
+	readFaultsOnly       bool // store faults are transient read errors only (err / timeout on Get)
+	pReuse, pReuseChange int  // a client sends an earlier request value again / after changing its selecting fields in place
+	sched                []string
+	stallPct             int
+	lifetimes            []int64 // seconds
+	freshKinds           []int   // weights: max-age, expires, heuristic, none
+	pAgeHdr              int
+	pDateOdd             int
+	pHuge                int
+	pSWR                 int
+	pSIE                 int
+	pMustReval           int
+	pNoCache             int
+	pNoCacheQ            int
+	pNoStore             int
+	pImmutable           int
+	pVary                int
+	pVaryStar            int
+	pVaryFlip            int // chance that plans of one resource differ in Vary
+	statuses             []int
+	pErrStatus           int
+	pNetFault            int
+	pLatency             int
+	pBigBody             int
+	pFraming             int
+	pHop                 int
+	pChange              int
+	pNo304               int
+	pValidator           int
+	pReqCC               int
+	reqCCs               []string
+	pUnsafe              int
+	pOtherMeth           int
+	pRange               int
+	pCond                int
+	pCancel              int
+	pPoison              int
+	pPartial             int
+	pRespell             int
+	pSelHdr              int
+	pRestart             int
+	storeFaults          int // max number of store faults
+	diskFaults           int
+	thinkFocus           int // percent of think times drawn from boundary set
+	pStoreLat            int
+	swrTimeouts          []int64 // ns; -1 = unset
+	maxBody              int
+	pLoc                 int
+	pair                 bool
+	crashy               bool
+	pCorrupt             int
+	pLongURL             int
+	pMultiLine           int
+	pMultiField          int
+	thinks               []int64
 }
 
 func defaultBias() bias {
 	return bias{
 		clients: [2]int{1, 1}, ops: [2]int{3, 10}, resources: [2]int{1, 2}, plans: [2]int{1, 3},
 		backends: []string{"mem", "mem", "fs", "fsenc"}, loggers: []string{"discard", "discard", "text", "json"},
+		pReuse: 12, pReuseChange: 40,
 		faultFree: true, sched: []string{"random", "sticky", "pct", "fifo"},
 		lifetimes: []int64{0, 1, 2, 5, 10, 60, 300}, freshKinds: []int{6, 2, 2, 1},
 		pAgeHdr: 15, pDateOdd: 10, pHuge: 3, pSWR: 15, pSIE: 10, pMustReval: 10, pNoCache: 8, pNoCacheQ: 4, pNoStore: 4, pImmutable: 5,
@@ -318,7 +322,7 @@ func (g *gen) plan(b *bias, resIdx, nRes int, vary string) RespPlan {
 	return p
 }
 
-var varyChoices = []string{"X-A", "X-A, X-B", "X-B, X-A", "Accept-Encoding", "Accept-Language", "Accept, Accept-Encoding", "X-Tenant"}
+var varyChoices = []string{"X-A", "X-A, X-B", "X-B, X-A", "Accept-Encoding", "Accept-Language", "Accept, Accept-Encoding", "X-Tenant", "Authorization"}
 
 func (g *gen) resource(b *bias, i, n int) Resource {
 	host := "a.test"
@@ -379,6 +383,9 @@ func (g *gen) selHeaders(res *Resource, b *bias) [][2]string {
 			}
 			// few meanings per run so that variants repeat
 			m := ms[g.IntN(min(len(ms), 3))]
+			if f == "Authorization" && g.chance(50) {
+				m = ms[2+g.IntN(4)]
+			}
 			if g.chance(15) {
 				m = ms[len(ms)-1] // absent
 			}
@@ -547,12 +554,20 @@ func (g *gen) base(profile string, seed uint64, b *bias) *Scenario {
 		no := b.ops[0] + g.IntN(b.ops[1]-b.ops[0]+1)
 		for k := 0; k < no; k++ {
 			cl.Ops = append(cl.Ops, g.op(b, scn))
-			if o := &cl.Ops[k]; k > 0 && o.Admin == "" && g.chance(12) {
+			if o := &cl.Ops[k]; k > 0 && o.Admin == "" && g.chance(b.pReuse) {
 				// a polling loop: the very request value of an earlier operation is sent again
 				for j := k - 1; j >= 0; j-- {
 					if p := cl.Ops[j]; p.Admin == "" && p.Cond == "" && p.CancelNs == 0 && !p.Poison {
+						own := o.Hdr
 						o.Method, o.Res, o.Spelling, o.CC, o.Hdr, o.Range = p.Method, p.Res, p.Spelling, p.CC, p.Hdr, p.Range
 						o.Cond, o.CancelNs, o.Poison, o.Reuse = "", 0, false, true
+						if g.chance(b.pReuseChange) {
+							// ... after changing the selecting header fields of that value in place
+							o.Hdr = g.selHeaders(&scn.Resources[o.Res], b)
+							if len(o.Hdr) == 0 {
+								o.Hdr = own
+							}
+						}
 						break
 					}
 				}
@@ -613,6 +628,19 @@ func (g *gen) base(profile string, seed uint64, b *bias) *Scenario {
 }
 
 // Profiles: name -> bias tweak.
+func swrvaryProfile(b *bias, g *gen) {
+	// C08: a variant stored by another request while a background revalidation waits for the origin
+	b.pSWR, b.pValidator, b.pLatency, b.pVary, b.pVaryFlip, b.pVaryStar = 80, 90, 70, 100, 0, 0
+	b.lifetimes = []int64{2, 2, 300, 300}
+	b.freshKinds = []int{10, 0, 0, 0}
+	b.pNoCache, b.pNoStore, b.pMustReval, b.pReqCC, b.pNoCacheQ, b.pErrStatus = 0, 0, 0, 0, 0, 0
+	b.resources, b.ops, b.plans = [2]int{1, 1}, [2]int{5, 10}, [2]int{2, 3}
+	b.thinkFocus, b.pSelHdr, b.pRespell = 0, 100, 10
+	b.thinks = []int64{0, 1, 1, 3, 3, 6}
+	b.backends = []string{"mem", "mem", "fs"}
+	b.swrTimeouts = []int64{-1, int64(60 * time.Second)}
+}
+
 var profiles = map[string]func(b *bias, g *gen){
 	"fresh": func(b *bias, g *gen) {
 		b.pNoCache, b.pNoStore, b.pNoCacheQ, b.pMustReval = 1, 1, 0, 3
@@ -627,6 +655,7 @@ var profiles = map[string]func(b *bias, g *gen){
 		b.reqCCs = []string{"no-cache", "max-age=0", "max-age=1", "max-age=5", "max-stale", "max-stale=100", "min-fresh=2", "only-if-cached", "stale-if-error=10"}
 		b.pReqCC, b.pValidator, b.pErrStatus, b.pNetFault = 45, 85, 12, 8
 		b.pVary, b.pVaryStar = 5, 1
+		b.pDateOdd = 20 // among others: a 304 without Date for a response that had one
 	},
 	"vary": func(b *bias, g *gen) {
 		b.pVary, b.pVaryStar, b.pVaryFlip, b.pSelHdr = 90, 6, 25, 90
@@ -637,6 +666,7 @@ var profiles = map[string]func(b *bias, g *gen){
 	},
 	"fidelity": func(b *bias, g *gen) {
 		b.pFraming, b.pHop, b.pBigBody = 70, 50, 40
+		b.pNetFault = 10 // a message cut short on the wire must not reach the caller as a complete one
 		b.lifetimes = []int64{60, 300}
 		b.pNoCache, b.pNoStore, b.pVary = 3, 2, 10
 		b.backends = []string{"mem", "fs", "fsenc"}
@@ -686,17 +716,14 @@ var profiles = map[string]func(b *bias, g *gen){
 		b.pSWR, b.pSIE, b.pValidator = 30, 20, 85
 		b.lifetimes = []int64{0, 1, 2, 5, 60}
 	},
-	"swrvary": func(b *bias, g *gen) {
-		// C08: a variant stored by another request while a background revalidation waits for the origin
-		b.pSWR, b.pValidator, b.pLatency, b.pVary, b.pVaryFlip, b.pVaryStar = 80, 90, 70, 100, 0, 0
-		b.lifetimes = []int64{2, 2, 300, 300}
-		b.freshKinds = []int{10, 0, 0, 0}
-		b.pNoCache, b.pNoStore, b.pMustReval, b.pReqCC, b.pNoCacheQ, b.pErrStatus = 0, 0, 0, 0, 0, 0
-		b.resources, b.ops, b.plans = [2]int{1, 1}, [2]int{5, 10}, [2]int{2, 3}
-		b.thinkFocus, b.pSelHdr, b.pRespell = 0, 100, 10
-		b.thinks = []int64{0, 1, 1, 3, 3, 6}
-		b.backends = []string{"mem", "mem", "fs"}
-		b.swrTimeouts = []int64{-1, int64(60 * time.Second)}
+	"swrvary": swrvaryProfile,
+
+	"swrreuse": func(b *bias, g *gen) {
+		// C04: a polling client changes the selecting fields of its one request value while a background
+		// revalidation started with that value is still waiting for the origin
+		swrvaryProfile(b, g)
+		b.pValidator, b.pReuse, b.pReuseChange = 35, 50, 85
+		b.thinks = []int64{0, 0, 1, 3, 6}
 	},
 	"swr": func(b *bias, g *gen) {
 		b.pNoCacheQ = 20
@@ -706,6 +733,19 @@ var profiles = map[string]func(b *bias, g *gen){
 		b.pNoCache, b.pNoStore, b.pMustReval, b.pReqCC, b.pCancel = 1, 1, 2, 8, 8
 		b.backends = []string{"mem", "mem", "mem", "fs"}
 		b.resources = [2]int{1, 1}
+	},
+	"swrrace": func(b *bias, g *gen) {
+		// overlapping background refreshes of one entry while the resource changes at the origin: a slow 304 for
+		// the old representation arrives after a full reply with the new one has been stored
+		b.pSWR, b.pValidator, b.pLatency, b.pChange, b.pNo304 = 100, 100, 90, 45, 10
+		b.lifetimes = []int64{1, 2}
+		b.freshKinds = []int{10, 0, 0, 0}
+		b.pNoCache, b.pNoStore, b.pMustReval, b.pReqCC, b.pNoCacheQ, b.pErrStatus = 0, 0, 0, 0, 0, 0
+		b.resources, b.clients, b.ops, b.plans = [2]int{1, 1}, [2]int{1, 2}, [2]int{4, 8}, [2]int{2, 3}
+		b.thinkFocus = 0
+		b.thinks = []int64{0, 0, 1, 2, 3}
+		b.backends = []string{"mem", "mem", "fs"}
+		b.swrTimeouts = []int64{-1, int64(60 * time.Second)}
 	},
 	"conc": func(b *bias, g *gen) {
 		b.clients, b.ops = [2]int{2, 4}, [2]int{2, 7}
